@@ -699,6 +699,17 @@ func (e *Engine) havocLocation(st *State, env *Env, m string) {
 	}
 	if ex.Op == "unary" && ex.Name == "*" {
 		p := env.eval(ex.Args[0])
+		if p.A != nil && p.A.Kind != ACell {
+			// the argument is the address of a location the caller knows by name (a struct-valued field of another object, an
+			// element, a local): the callee's writes land in THAT storage. Havocking the field heaps at the pointer value
+			// instead left the caller's view unchanged, and assuming the callee's postcondition on top of the stale value
+			// made the path inconsistent (everything after the call discharged vacuously); found while writing the C10
+			// contracts of ps.(*SigPoK).fromBytes (probe: ensures result == nil ==> false was "proved").
+			v := st.freshVal("mod_obj", p.A.T)
+			st.assumeTypeInv(v.S, p.A.T)
+			st.store(p.A, v)
+			return
+		}
 		if pt, ok := p.T.Underlying().(*types.Pointer); ok {
 			if s, ok := pt.Elem().Underlying().(*types.Struct); ok {
 				// every field of the pointed-to struct (havocReachable spares repository structs: that rule is for
